@@ -112,6 +112,18 @@ impl Builder {
     }
 }
 
+#[cfg(feature = "verif")]
+impl Builder {
+    /// Verification hook: builds a genotype reader from any buffered reader, running the same
+    /// compression/format detection as [`Builder::build`].
+    pub fn build_from_bufread<R>(self, reader: R) -> io::Result<super::DynReader>
+    where
+        R: 'static + io::BufRead,
+    {
+        self.build_from_reader(reader)
+    }
+}
+
 /// A reader input format.
 #[derive(Clone, Copy, Debug, Eq, PartialEq)]
 pub enum Format {
